@@ -35,10 +35,12 @@ ENTRY = dict(
                 "over-approximates calls it cannot resolve."),
     technique="Lean 4 proof (invariant + measure over a protocol model, dichotomies over extracted tables) + exhaustive cancellation-point sweep of the real engine",
     lean_modules=["Bpmn.Props.C07", "Bpmn.Props.C07Current"],
-    families=["c07"],
+    families=["c07", "c13"],
+    harness_files=["c13.go", "c13e2.go"],
     exhaustive=True,
     multi_seed=False,
-    rule=("c07: for each program of the corpus (two tasks in sequence; parallel fork/join; exclusive split/merge; inclusive "
+    rule=("family c13 seen through C07: pkg/timer on the mock clock — every case ends by cancelling the context (also cancellations that race a clock jump to a due instant): every goroutine of pkg/timer is gone afterwards (leak:timer_goroutine_after_cancel / _blocked); "
+          "c07: for each program of the corpus (two tasks in sequence; parallel fork/join; exclusive split/merge; inclusive "
           "fork/join; signal catch event; timer catch event on the mock clock; embedded sub-process with an inner task; "
           "non-interrupting boundary event armed / fired; event-based gateway; loop; throw event; task answered with an error and an error-handler channel on which the driver never sends a decision; thorough adds sub-process "
           "with a parallel block, parallel block with a catch event, exclusive inside inclusive, each x 3 repetitions with "
